@@ -61,6 +61,22 @@ PROPS = {
         "quick": {"timeout": 300},
         "thorough": {"timeout": 900},
     },
+    "C13": {
+        "pkgs": [MOD + "/ip4defrag", MOD + "/ip6defrag"],
+        "static": [("ip4defrag", "c13.go"), ("ip6defrag", "c13v6.go")],
+        "bounds": "IPv4: datagrams of 3 fragments cut at 8-byte units (fragment sizes 8/16 bytes, last fragment 1..8 bytes symbolic), all 6 arrival orders, IHL 5 and 6, one duplicate and one foreign fragment at any position, payload bytes symbolic; hostile: 2-3 fragments with independent symbolic offset (0..3 units), length (0..24), MF flag and contents",
+        "outside": "payloads up to 65515 bytes, the 8192-fragment cap, more than 3 fragments",
+        "quick": {"timeout": 900, "unwind": 400, "units": "verif_C13_(benign|benign_extras|passthrough|hostile2|discard|v6)"},
+        "thorough": {"timeout": 3000, "unwind": 400},
+    },
+    "C18": {
+        "pkgs": [MOD],
+        "static": [("", "c18.go")],
+        "bounds": "all sequences of <= 3 (quick) / 4 (thorough) operations from {PrependBytes(n), AppendBytes(n), Clear}, n symbolic in 0..3, written bytes symbolic, both constructors with hints 0..2 symbolic; window harness: one op on a buffer holding 0..3 symbolic bytes, symbolic write position; SerializeLayers with 3 harness layers prepending 0..2 bytes each and a failure at any position",
+        "outside": "longer histories and larger sizes (no sampling is done beyond the bound); the inductive single-step harness over arbitrary buffer states needs symbolic-size objects, which the engine does not have",
+        "quick": {"units": "verif_C18_(seq2|seq3|window|stack)", "timeout": 600},
+        "thorough": {"units": "verif_C18_(seq2|seq3|seq4|window|stack)", "timeout": 3000},
+    },
     "C19": {
         "pkgs": [MOD + "/layers"],
         "generate": gen_c19,
